@@ -18,6 +18,7 @@ PROPS = ("NoError", "DataIntegrity", "Sharing", "NoLeak", "FragTableSane")
 def run(tier):
     ev = Evidence(PID, tier, "model_checking")
     rep = Reporter(PID, ev)
+    bpbind.JUDGE = {"integrity", "sharing"}          # a check raises alarms for its own property only
     work = scratch("c08")
     cfgs = [dict(nf=3, mb=1, ids=["a", "c", "z"], backlogs=(3, 4), flagsets=[[]], tails=(2, 3)),
             dict(nf=2, mb=2, ids=["a", "c", "b"], backlogs=(3,), flagsets=[[], ["DONT_DEDUP"]], tails=(3,)),
